@@ -412,7 +412,26 @@ var (
 	c31AInvalid = common.HexToAddress("0xa600000000000000000000000000000000000001")
 	c31ACallNew = common.HexToAddress("0xa700000000000000000000000000000000000001")
 	c31ACallRev = common.HexToAddress("0xa800000000000000000000000000000000000001")
+	c31AC2Ok    = common.HexToAddress("0xa900000000000000000000000000000000000001")
+	c31AC2Rev   = common.HexToAddress("0xaa00000000000000000000000000000000000001")
+	c31AC2Halt  = common.HexToAddress("0xab00000000000000000000000000000000000001")
+	c31AC1Rev   = common.HexToAddress("0xac00000000000000000000000000000000000001")
 )
+
+// c31Factory: MSTORE the init code, CREATE (or CREATE2 with salt = calldata word 0) with zero value, STOP.
+func c31Factory(init []byte, create2 bool) []byte {
+	word := make([]byte, 32)
+	copy(word[32-len(init):], init)
+	off, sz := byte(32-len(init)), byte(len(init))
+	b := append([]byte{0x7f}, word...)
+	b = append(b, 0x60, 0x00, 0x52)
+	if create2 {
+		b = append(b, 0x60, 0x00, 0x35, 0x60, sz, 0x60, off, 0x60, 0x00, 0xf5)
+	} else {
+		b = append(b, 0x60, sz, 0x60, off, 0x60, 0x00, 0xf0)
+	}
+	return append(b, 0x50, 0x00)
+}
 
 func init() {
 	for _, h := range []string{
@@ -451,6 +470,10 @@ func c31Code() map[common.Address][]byte {
 		c31AInvalid: cat(sstoreK(1), []byte{0xfe}),
 		c31ACallNew: cat(callNew, []byte{0x00}),
 		c31ACallRev: cat(callNew, revert),
+		c31AC2Ok:    c31Factory([]byte{0x60, 0x03, 0x60, 0x00, 0xf3}, true),
+		c31AC2Rev:   c31Factory(revert, true),
+		c31AC2Halt:  c31Factory([]byte{0xfe}, true),
+		c31AC1Rev:   c31Factory(revert, false),
 	}
 }
 
@@ -541,6 +564,13 @@ func c31Templates() []c31Tmpl {
 		{name: "create-revert", data: func(int) []byte { return []byte{0x60, 0x00, 0x60, 0x00, 0xfd} }, gas: ample},
 		{name: "calldata-heavy", to: p(c31EOA), data: func(int) []byte { return heavy }, gas: exact},
 		{name: "sstore-new-oog", to: p(c31AStore), data: func(pos int) []byte { return word(uint64(pos) + 1) }, gas: func(i, f uint64) uint64 { return max(i, f) + 3000 }},
+		{name: "create2-ok", to: p(c31AC2Ok), data: func(pos int) []byte { return word(uint64(pos) + 1) }, gas: ample},
+		{name: "create2-init-reverts", to: p(c31AC2Rev), data: func(pos int) []byte { return word(uint64(pos) + 1) }, gas: ample},
+		{name: "create2-init-halts", to: p(c31AC2Halt), data: func(pos int) []byte { return word(uint64(pos) + 1) }, gas: ample},
+		{name: "create2-init-reverts-reservoir", to: p(c31AC2Rev), data: func(pos int) []byte { return word(uint64(pos) + 1) }, gas: func(_, _ uint64) uint64 { return params.MaxTxGas + 500_000 }, only: "amsterdam"},
+		{name: "create2-init-halts-reservoir", to: p(c31AC2Halt), data: func(pos int) []byte { return word(uint64(pos) + 1) }, gas: func(_, _ uint64) uint64 { return params.MaxTxGas + 500_000 }, only: "amsterdam"},
+		{name: "create-init-reverts-reservoir", to: p(c31AC1Rev), data: func(pos int) []byte { return word(uint64(pos) + 1) }, gas: func(_, _ uint64) uint64 { return params.MaxTxGas + 500_000 }, only: "amsterdam"},
+		{name: "create-tx-reverts-reservoir", data: func(int) []byte { return []byte{0x60, 0x00, 0x60, 0x00, 0xfd} }, gas: func(_, _ uint64) uint64 { return params.MaxTxGas + 500_000 }, only: "amsterdam"},
 		{name: "sstore-new-reservoir", to: p(c31AStore), data: func(pos int) []byte { return word(uint64(pos) + 1) }, gas: func(_, _ uint64) uint64 { return params.MaxTxGas + 500_000 }, only: "amsterdam"},
 	}
 }
@@ -636,7 +666,10 @@ func c31RunBlock(f c31Fork, tmpls []c31Tmpl, txs [][]*c31Tx, blockLimit uint64, 
 			admit = blockLimit-sumUsed >= t.msg.GasLimit
 		}
 		sdb.SetTxContext(t.tx.Hash(), pos, uint32(pos+1))
-		res, err := ApplyMessage(evm, t.msg, gp)
+		// ApplyMessage, spelled out to keep the final transaction budget observable
+		evm.SetTxContext(NewEVMTxContext(t.msg))
+		st := newStateTransition(evm, t.msg, gp)
+		res, err := st.execute()
 		if err != nil {
 			if admit {
 				return fmt.Errorf("%s: rejected with %v although the pool has room (%+v)", name, err, poolBefore)
@@ -663,6 +696,31 @@ func c31RunBlock(f c31Fork, tmpls []c31Tmpl, txs [][]*c31Tx, blockLimit uint64, 
 		sumUsed += res.UsedGas
 
 		// ---- transaction level
+		{
+			// the budget the top frame was entered with (EIP-8037: execution gas capped at MaxTxGas, the rest is the reservoir)
+			evmGas := t.msg.GasLimit - t.intrinsic
+			e0 := evmGas
+			if f.amsterdam {
+				e0 = min(params.MaxTxGas-t.intrinsic, evmGas)
+			}
+			s0 := evmGas - e0
+			g := st.gasRemaining
+			if g.ExecutionGas+g.UsedExecutionGas+g.Spilled != e0 {
+				return fmt.Errorf("%s: execution gas not conserved: left %d + used %d + spilled %d != %d after intrinsic gas; budget %v", name, g.ExecutionGas, g.UsedExecutionGas, g.Spilled, e0, g)
+			}
+			if int64(g.StateGas)+g.UsedStateGas-int64(g.Spilled) != int64(s0) {
+				return fmt.Errorf("%s: reservoir identity broken: StateGas %d + UsedStateGas %d - Spilled %d != initial reservoir %d; budget %v", name, g.StateGas, g.UsedStateGas, g.Spilled, s0, g)
+			}
+			if res.Failed() && res.Err != vm.ErrExecutionReverted && f.amsterdam && g.ExecutionGas != 0 {
+				return fmt.Errorf("%s: halted top frame (%v) left execution gas %d", name, res.Err, g.ExecutionGas)
+			}
+			if res.Failed() && (g.UsedStateGas != 0 || g.Spilled != 0 || g.StateGas != s0) {
+				return fmt.Errorf("%s: failed top frame (%v) must hand back the reservoir %d with no state usage: %v", name, res.Err, s0, g)
+			}
+			if s0 > 0 {
+				outcome("tx_with_reservoir")
+			}
+		}
 		if res.UsedGas > t.msg.GasLimit {
 			return fmt.Errorf("%s: gas used %d exceeds the gas limit", name, res.UsedGas)
 		}
@@ -836,7 +894,7 @@ func TestVerif_C31(t *testing.T) {
 			"{0,1,4,5,6,9,10,20999,21000,limit-1,limit} x reservoir share of the leftover x UsedStateGas{-1,0,1,used-1,used,used+1} (amsterdam) x " +
 			"refund counter{0,1,cap-1,cap,cap+1,1e9} x calldata floor{0,net-1,net,net+1,limit} (prague+) x pool pre-state (empty, exact fit, one over " +
 			"in either dimension) x gas price{0,1,7}: stateTransition.settleGas on the real code vs. the EIP-3529/7623/8037 settlement arithmetic; " +
-			"(B) every ordered sequence of 1..L transactions over 14-15 templates x fork{berlin,london,prague,osaka,amsterdam} x block gas limit " +
+			"(B) every ordered sequence of 1..L transactions over 18-22 templates x fork{berlin,london,prague,osaka,amsterdam} x block gas limit " +
 			"{30M, 2.05M, 1.03M} applied with ApplyMessage+MakeReceipt into one GasPool; distinct = distinct grid points / (fork, limit, sequence)")
 		r.Bound("L_max_txs_per_block", maxLen)
 		r.Assume("IntrinsicGas and FloorDataGas are taken from the implementation (checked by C35)")
